@@ -482,8 +482,14 @@ func (k PublicKeyBTCEC) Address() Address {
 	return nil
 }
 
+// VerifyBytes verifies a DER signature as produced by PrivateKeyBTCEC.Sign
 func (k PublicKeyBTCEC) VerifyBytes(msg []byte, sig []byte) bool {
-	return true
+	s, err := btcec.ParseDERSignature(sig, btcec.S256())
+	if err != nil {
+		return false
+	}
+	pub := k.key
+	return s.Verify(msg, &pub)
 }
 
 func (k PublicKeyBTCEC) Equals(PubkeyBTCEC PublicKey) bool {
